@@ -263,21 +263,29 @@ func (route *GrafanaNet) run(in chan []byte) {
 	var metrics []*schema.MetricData
 	buffer := new(bytes.Buffer)
 
+	// ingest adds the metric in buf to the current batch, and flushes the batch when it is full
+	ingest := func(buf []byte) (flushed bool) {
+		route.numBuffered.Dec(1)
+		md, err := parseMetric(buf, route.schemas, route.Cfg.OrgID)
+		if err != nil {
+			log.Errorf("RouteGrafanaNet: parseMetric failed: %s. skipping metric", err)
+			return false
+		}
+		md.SetId()
+		metrics = append(metrics, md)
+
+		if len(metrics) == route.Cfg.FlushMaxNum {
+			metrics = route.retryFlush(metrics, buffer)
+			return true
+		}
+		return false
+	}
+
 	timer := time.NewTimer(route.Cfg.FlushMaxWait)
 	for {
 		select {
 		case buf := <-in:
-			route.numBuffered.Dec(1)
-			md, err := parseMetric(buf, route.schemas, route.Cfg.OrgID)
-			if err != nil {
-				log.Errorf("RouteGrafanaNet: parseMetric failed: %s. skipping metric", err)
-				continue
-			}
-			md.SetId()
-			metrics = append(metrics, md)
-
-			if len(metrics) == route.Cfg.FlushMaxNum {
-				metrics = route.retryFlush(metrics, buffer)
+			if ingest(buf) {
 				// reset our timer
 				if !timer.Stop() {
 					<-timer.C
@@ -288,8 +296,16 @@ func (route *GrafanaNet) run(in chan []byte) {
 			timer.Reset(route.Cfg.FlushMaxWait)
 			metrics = route.retryFlush(metrics, buffer)
 		case <-route.shutdown:
-			metrics = route.retryFlush(metrics, buffer)
-			return
+			// flush everything we accepted: what is still queued in our input buffer, too
+			for {
+				select {
+				case buf := <-in:
+					ingest(buf)
+				default:
+					metrics = route.retryFlush(metrics, buffer)
+					return
+				}
+			}
 		}
 	}
 }
